@@ -7,6 +7,7 @@ Nothing in here knows about caches: a statement is a plain function that uses po
 inside an open db_session and returns whatever pony returned.
 """
 import os, sys, datetime, sqlite3
+import _strptime     # stdlib module that datetime imports lazily: loaded before the zygote forks
 from decimal import Decimal
 from vf import core   # puts the tree under test first on sys.path
 from pony import orm
@@ -161,72 +162,57 @@ def S(kind, fn, *args, **kw):
 # -- limit / offset on one code object (sql_key limit/offset)
 def q_slice(a, b): return select(p for p in Person).order_by(Person.id)[a:b]
 S('query-slice', q_slice, 0, 3, ordered=True, core=True)
-S('query-slice', q_slice, 2, 5, ordered=True)
 S('query-slice', q_slice, 3, None, ordered=True)
 def q_page(n, size): return select(p.name for p in Person).order_by(1).page(n, size)
-S('query-slice', q_page, 1, 3, ordered=True, core=True)
+S('query-slice', q_page, 1, 3, ordered=True)
 S('query-slice', q_page, 2, 3, ordered=True)
-S('query-slice', q_page, 2, 2, ordered=True)
 def q_limit(n, off): return Person.select().order_by(desc(Person.age), Person.id).limit(n, offset=off)
 S('query-slice', q_limit, 2, 1, ordered=True)
-S('query-slice', q_limit, 3, 0, ordered=True)
 
 # -- string slices / indexes with parameter bounds (translator.fixed_param_values)
 def str_slice(a, b): return select((p.id, p.name[a:b]) for p in Person)
 S('string-slice-with-parameter-bounds', str_slice, 0, 2, core=True)
 S('string-slice-with-parameter-bounds', str_slice, 1, 3, core=True)
 S('string-slice-with-parameter-bounds', str_slice, 1, None)
-S('string-slice-with-parameter-bounds', str_slice, None, 2)
 S('string-slice-with-parameter-bounds', str_slice, -2, None)
 def str_index(i): return select((p.id, p.name[i]) for p in Person)
 S('string-index-with-parameter', str_index, 0)
-S('string-index-with-parameter', str_index, 1)
 S('string-index-with-parameter', str_index, -1)
 def str_slice_filter(a, b, s): return select(p for p in Person if p.name[a:b] == s)
 S('string-slice-with-parameter-bounds', str_slice_filter, 0, 1, 'a')
 S('string-slice-with-parameter-bounds', str_slice_filter, 1, 2, 'a')
-S('string-slice-with-parameter-bounds', str_slice_filter, 0, 2, 'ab')
 
 # -- getattr with a parameter name (fixed_param_values) and values of every type for the same variable
 def getattr_select(name): return select((p.id, getattr(p, name)) for p in Person)
 S('getattr-with-parameter-name', getattr_select, 'name', core=True)
 S('getattr-with-parameter-name', getattr_select, 'age', core=True)
-S('getattr-with-parameter-name', getattr_select, 'nick')
 S('getattr-with-parameter-name', getattr_select, 'group')
 def getattr_cmp(name, v): return select(p for p in Person if getattr(p, name) == v)
 S('getattr-with-parameter-name', getattr_cmp, 'age', 30)
-S('getattr-with-parameter-name', getattr_cmp, 'name', 'bob')
-S('getattr-with-parameter-name', getattr_cmp, 'nick', 'bob')
 S('getattr-with-parameter-name', getattr_cmp, 'nick', None)
 S('getattr-with-parameter-name', getattr_cmp, 'score', Decimal('10.50'))
 S('getattr-with-parameter-name', getattr_cmp, 'born', date(2003, 6, 1))
 S('getattr-with-parameter-name', getattr_cmp, 'group', ENT('Group', 1))
-S('getattr-with-parameter-name', getattr_cmp, 'group', None)
 
 # -- one variable, many types
 def cmp_age(v): return select(p for p in Person if p.age == v)
 S('parameter-types', cmp_age, 30, core=True)
-S('parameter-types', cmp_age, 17)
 S('parameter-types', cmp_age, None, core=True)
-S('parameter-types', cmp_age, Decimal('45'), core=True)
-S('parameter-types', cmp_age, 31.0)
+S('parameter-types', cmp_age, Decimal('45'))
 S('parameter-types', cmp_age, '30')
 S('parameter-types', cmp_age, (30, 45))
 def cmp_group(v): return select(p.name for p in Person if p.group == v)
 S('parameter-types', cmp_group, ENT('Group', 1))
-S('parameter-types', cmp_group, ENT('Group', 2))
 S('parameter-types', cmp_group, None)
-S('parameter-types', cmp_group, 1)
 
 # -- `in` lists of different lengths / container types
 def in_list(v): return select(p for p in Person if p.age in v)
-S('in-list-parameter', in_list, [17], core=True)
+S('in-list-parameter', in_list, [17])
 S('in-list-parameter', in_list, [17, 30, 45], core=True)
 S('in-list-parameter', in_list, (30, 31))
 S('in-list-parameter', in_list, [])
 S('in-list-parameter', in_list, ['bob'])
 def in_names(v): return select(p.id for p in Person if p.name in v or p.nick in v)
-S('in-list-parameter', in_names, ['bob'])
 S('in-list-parameter', in_names, ['bob', 'eve', 'al'])
 
 # -- one query string, several call sites with different name spaces
@@ -236,7 +222,6 @@ def qs_local(v): x = v; return select(QS_AGE)           # the global is shadowed
 S('query-string-at-several-call-sites', qs_global, core=True)
 S('query-string-at-several-call-sites', qs_local, 40, core=True)
 S('query-string-at-several-call-sites', qs_local, Decimal('30.5'))
-S('query-string-at-several-call-sites', qs_local, None)
 def qs_dicts(g, l): return select(QS_AGE, g, l)          # explicit name spaces
 S('query-string-at-several-call-sites', qs_dicts, {'Person': Person, 'x': 44}, {})
 S('query-string-at-several-call-sites', qs_dicts, {'Person': Group, 'x': 1}, {'p': 1})
@@ -255,7 +240,6 @@ def ls_select(v): x = v; return Person.select(LS_AGE)
 def ls_filter(v): x = v; return select(p for p in Person if p.nick is not None).filter(LS_AGE)
 S('query-string-at-several-call-sites', ls_select, 30)
 S('query-string-at-several-call-sites', ls_filter, 30)
-S('query-string-at-several-call-sites', ls_filter, 16)
 
 # -- chained filter / where / order_by with shared lambdas
 L_ADULT = lambda p: p.age >= 30
@@ -268,7 +252,6 @@ def ch_filter(*fs):
     for f in fs: q = q.filter(f)
     return q
 S('chained-lambdas', ch_filter, L_ADULT, core=True)
-S('chained-lambdas', ch_filter, L_GROUPED)
 S('chained-lambdas', ch_filter, L_ADULT, L_GROUPED, core=True)
 S('chained-lambdas', ch_filter, L_GROUPED, L_ADULT)
 S('chained-lambdas', ch_filter, L_NAME)
@@ -282,7 +265,6 @@ def ch_order(fs, os_):
     for o in os_: q = q.order_by(o)
     return q
 S('chained-lambdas', ch_order, (L_ADULT,), (O_NAME,), ordered=True)
-S('chained-lambdas', ch_order, (), (O_AGE_DESC,), ordered=True)
 S('chained-lambdas', ch_order, (), (O_NAME, O_AGE_DESC), ordered=True)
 def ch_order_then_filter(o, f): return select(p for p in Person).order_by(o).filter(f)
 S('chained-lambdas', ch_order_then_filter, O_NAME, L_ADULT, ordered=True)
@@ -291,7 +273,6 @@ S('chained-lambdas', ch_closure, 30, ordered=True)
 S('chained-lambdas', ch_closure, 44.5, ordered=True)
 def ch_kw(**kw): return Person.select().filter(**kw)
 S('keyword-filters', ch_kw, kw=dict(age=30))
-S('keyword-filters', ch_kw, kw=dict(age=17))
 S('keyword-filters', ch_kw, kw=dict(nick=None))
 S('keyword-filters', ch_kw, kw=dict(nick='bob'))
 S('keyword-filters', ch_kw, kw=dict(age=17, nick='bob'))
@@ -313,7 +294,6 @@ def hyb_meth(n, bonus):
     return select(p.name for p in Person if p.older_than(n))
 S('hybrid-reading-a-global', hyb_meth, 30, 0)
 S('hybrid-reading-a-global', hyb_meth, 30, 15)
-S('hybrid-reading-a-global', hyb_meth, 17, 0)
 def hyb_func(limit):
     global LIMIT
     LIMIT = limit
@@ -326,12 +306,11 @@ def agg_count(v): return select(p for p in Person if p.age > v).count()
 S('query-aggregate-method', agg_count, 29, core=True)
 S('query-aggregate-method', agg_count, 44)
 def agg_sum(v): return select(p.age for p in Person if p.age > v).sum()
-S('query-aggregate-method', agg_sum, 29, core=True)
+S('query-aggregate-method', agg_sum, 29)
 def agg_minmax(which):
     q = select(p.score for p in Person)
     return q.min() if which == 'min' else q.max() if which == 'max' else q.avg()
 S('query-aggregate-method', agg_minmax, 'min')
-S('query-aggregate-method', agg_minmax, 'max')
 S('query-aggregate-method', agg_minmax, 'avg')
 def agg_group_concat(sep, dist): return select(p.name for p in Person if p.age > 40).order_by(1).group_concat(sep, distinct=dist)
 S('query-aggregate-method', agg_group_concat, ',', None)
@@ -343,15 +322,12 @@ S('query-aggregate-method', agg_count_distinct, False)
 def agg_in_query(): return select((g.name, count(g.members), sum(g.members.age), max(g.members.score)) for g in Group)
 S('aggregate-in-query', agg_in_query)
 def agg_func(v): return (count(p for p in Person if p.age > v), max(p.age for p in Person if p.age < v), avg(p.age for p in Person), group_concat(p.name for p in Person if p.age == v))
-S('aggregate-in-query', agg_func, 30)
-S('aggregate-in-query', agg_func, 45)
+S('query-aggregate-method', agg_func, 30)
 def agg_subquery(): return select(p for p in Person if p.age == max(q.age for q in Person))
 S('aggregate-in-query', agg_subquery)
 def ex_query(v): return select(p for p in Person if p.age > v).exists()
-S('exists-first-get', ex_query, 59, core=True)
-S('exists-first-get', ex_query, 99)
+S('exists-first-get', ex_query, 59)
 def ex_func(v): return exists(p for p in Person if p.name == v)
-S('exists-first-get', ex_func, 'bobby')
 def ex_entity(**kw): return Person.exists(**kw)
 S('exists-first-get', ex_entity, kw=dict(age=80))
 def ex_inner(tn): return select(p for p in Person if exists(t for t in p.tags if t.name == tn))
@@ -368,7 +344,6 @@ S('entity-get', get_kw, kw=dict(id=3), core=True)
 S('entity-get', get_kw, kw=dict(id=20))
 S('entity-get', get_kw, kw=dict(name='zed'))
 S('entity-get', get_kw, kw=dict(age=60, nick='e'))
-S('entity-get', get_kw, kw=dict(age=17))
 def get_lambda(n): return Person.get(lambda p: p.name == n)
 S('entity-get', get_lambda, 'carol')
 def get_index(pk): return Person[pk]
@@ -390,12 +365,11 @@ def pre_fetch(which):
     return [(p, p.group, sorted(t.name for t in p.tags)) for p in q]
 S('prefetch', pre_fetch, 'group')
 S('prefetch', pre_fetch, 'tags')
-S('prefetch', pre_fetch, 'all')
 S('prefetch', pre_fetch, 'none')
 
 # -- raw SQL
 def by_sql(v): return Person.select_by_sql('select * from person where age > $v')
-S('select-by-sql', by_sql, 40, core=True)
+S('select-by-sql', by_sql, 40)
 S('select-by-sql', by_sql, 17.5)
 def by_sql_x(v): x = v; return Person.select_by_sql('select * from person where name > $x order by id')
 S('select-by-sql', by_sql_x, 'c', ordered=True)
@@ -411,7 +385,6 @@ S('database-select', db_select_local, 30)
 def db_select_literals(i): return db.select("select '%', '%%', '$$', '%s', name from person where id = $i")
 S('database-select', db_select_literals, 2)
 def db_get(v): return db.get('select count(*) from person where age >= $v')
-S('database-select', db_get, 30)
 def db_exists(v): return db.exists('select 1 from person where name = $v')
 S('database-select', db_exists, 'zed')
 def db_execute(v): return db.execute('select id, nick from person where nick is not $v order by id').fetchall()
@@ -429,12 +402,10 @@ def raw_in_lambda(v): return Person.select().filter(lambda p: raw_sql('p.age < $
 S('raw-sql-fragment', raw_in_lambda, 31)
 def raw_value(v): return select(p.id for p in Person if p.age > raw_sql('$v + 1'))
 S('raw-sql-fragment', raw_value, 29)
-S('raw-sql-fragment', raw_value, 44)
 
 # -- Entity.select(lambda), distinct, attribute lifting, joins, sub-queries, queries as parameters
 def ent_select(f): return Person.select(f)
 S('entity-select-lambda', ent_select, L_ADULT)
-S('entity-select-lambda', ent_select, L_NAME)
 def ent_select_closure(v): return Person.select(lambda p: p.age > v and p.nick is None)
 S('entity-select-lambda', ent_select_closure, 17)
 S('entity-select-lambda', ent_select_closure, 30)
@@ -449,7 +420,6 @@ def lift_groups(): return select(p.group for p in Person if p.age > 20)
 S('attribute-lifting', lift_groups)
 def lift_collection(r): return select((g.id, g.members.name) for g in Group if g.rank == r)
 S('attribute-lifting', lift_collection, 1)
-S('attribute-lifting', lift_collection, None)
 def lift_instance(pk): return sorted(Group[pk].members.name)
 S('attribute-lifting', lift_instance, 1)
 def join_tags(tn): return select((p.name, t.name) for p in Person for t in p.tags if t.name >= tn)
@@ -458,14 +428,13 @@ def lj_tags(): return left_join((p.id, count(t)) for p in Person for t in p.tags
 S('join', lj_tags)
 def sub_in(r): return select(p for p in Person if p.group in select(g for g in Group if g.rank == r))
 S('subquery', sub_in, 1)
-S('subquery', sub_in, 2)
 def sub_param(r):
     q0 = select(g for g in Group if g.rank == r)
     return select(p for p in Person if p.group in q0)
 S('subquery', sub_param, 1)
 S('subquery', sub_param, None)
 def sub_source(v, w): return select(y.name for y in select(p for p in Person if p.age > v) if y.age < w)
-S('subquery', sub_source, 17, 45, core=True)
+S('subquery', sub_source, 17, 45)
 S('subquery', sub_source, 30, 61)
 
 BYNAME = dict((s.name, i) for i, s in enumerate(POOL))
